@@ -20,8 +20,11 @@ import (
 
 	"github.com/golang/protobuf/proto"
 	"github.com/google/uuid"
+	topoapi "github.com/onosproject/onos-api/go/onos/topo"
 	nb "github.com/onosproject/onos-config/pkg/northbound/gnmi/v2"
+	sb "github.com/onosproject/onos-config/pkg/southbound/gnmi"
 	"github.com/onosproject/onos-config/pkg/verifrt"
+	"github.com/onosproject/onos-lib-go/pkg/errors"
 	"github.com/openconfig/gnmi/proto/gnmi"
 	"google.golang.org/grpc/metadata"
 )
@@ -51,6 +54,31 @@ type SubPlan struct {
 	Targets []string       `json:"targets"`
 	Msgs    []SubMsg       `json:"msgs"`
 	Updates map[string]int `json:"updates"` // updates each target emits once subscribed
+	// LookupFail: the connection manager cannot name the target's client once - at the given lookup ordinal for that
+	// target (1 = the lookup of the subscription itself, never failed; n+1 = the lookup for the n-th poll)
+	LookupFail map[string]int `json:"lookupFail,omitempty"`
+}
+
+// flakyConns fails chosen GetByTarget lookups (a target that is briefly unknown to the manager).
+type flakyConns struct {
+	*Conns
+	k     *Kernel
+	fail  map[string]int
+	count map[string]int
+	mu    sync.Mutex
+}
+
+func (f *flakyConns) GetByTarget(ctx context.Context, t topoapi.ID) (sb.Client, error) {
+	f.mu.Lock()
+	f.count[string(t)]++
+	n := f.count[string(t)]
+	bad := f.fail[string(t)] == n && n > 1
+	f.mu.Unlock()
+	if bad {
+		f.k.Stat("fault/conn-lookup-failed")
+		return nil, errors.NewUnavailable("target %s is not connected", t)
+	}
+	return f.Conns.GetByTarget(ctx, t)
 }
 
 type nbStream struct {
@@ -168,9 +196,19 @@ func genSubPlan(seed uint64, tier string) *Plan {
 		sp.Msgs = []SubMsg{mkSub(), mkSub(), {Kind: "poll"}}
 	default:
 		sp.Msgs = []SubMsg{mkSub()}
-		for i := 0; i < g.pick(3); i++ {
+		for i := 0; i < g.pick(4); i++ {
 			sp.Msgs = append(sp.Msgs, SubMsg{Kind: "poll"})
 		}
+	}
+	npolls := 0
+	for _, m := range sp.Msgs {
+		if m.Kind == "poll" {
+			npolls++
+		}
+	}
+	if npolls >= 2 && g.chance(1, 2) {
+		// the manager cannot name one target's client for one of the polls (not the last one)
+		sp.LookupFail = map[string]int{sp.Targets[g.pick(len(sp.Targets))]: 2 + g.pick(npolls-1)}
 	}
 	sp.Msgs = append(sp.Msgs, SubMsg{Kind: "close"})
 	p.Sub = sp
@@ -241,7 +279,11 @@ func subBubble(plan *Plan, res *Result) {
 			d.Stop()
 		}
 	}()
-	server := nb.NewServerForVerif(nil, nil, nil, nil, nil, conns, 0)
+	var cm sb.ConnManager = conns
+	if len(sp.LookupFail) > 0 {
+		cm = &flakyConns{Conns: conns, k: k, fail: sp.LookupFail, count: map[string]int{}}
+	}
+	server := nb.NewServerForVerif(nil, nil, nil, nil, nil, cm, 0)
 	stream := &nbStream{k: k, ctx: ctx}
 	for _, m := range sp.Msgs {
 		stream.msgs = append(stream.msgs, buildSubReq(m))
@@ -448,8 +490,12 @@ func subBubble(plan *Plan, res *Result) {
 				if got.GetPrefix().GetTarget() != t {
 					report("forwarding", "prefix-target", fmt.Sprintf("target %s received a subscription whose prefix names %q", t, got.GetPrefix().GetTarget()))
 				}
-				if !secondSub && polls != pollsAfter {
-					report("poll", "not-forwarded-to-every-target", fmt.Sprintf("target %s received %d poll(s); the subscriber sent %d", t, polls, pollsAfter))
+				wantPolls := pollsAfter
+				if o := sp.LookupFail[t]; o >= 2 && o-1 <= pollsAfter {
+					wantPolls-- // the one poll during which the manager could not name the target is excused
+				}
+				if !secondSub && polls != wantPolls {
+					report("poll", "not-forwarded-to-every-target", fmt.Sprintf("target %s received %d poll(s); the subscriber sent %d (%d to be forwarded to it)", t, polls, pollsAfter, wantPolls))
 				}
 			}
 			// every update a target emitted is relayed unmodified, in per-target order
